@@ -13,8 +13,8 @@ OrdDig == JsonDeserialize("ord_dig.json")     \* record indices sorted by (root,
 
 
 \* r.ents is aligned with r.list: for every list position the scenario's description of that path
-\* [p |-> path, k |-> "reg" | "dir" | "absent" | "dangling" | "vanish", c |-> content]
-IsBad(e) == e.k \in {"absent", "dangling", "vanish"}
+\* [p |-> path, k |-> "reg" | "dir" | "absent" | "dangling" | "vanish" | "eio", c |-> content]   (eio: opens, but reading it fails)
+IsBad(e) == e.k \in {"absent", "dangling", "vanish", "eio"}
 BadListed(r) == \E i \in DOMAIN r.ents : IsBad(r.ents[i])
 RegIdx(r)    == {i \in DOMAIN r.ents : r.ents[i].k = "reg"}
 \* the collection of (absolute path, content) pairs of the regular files of the list, as a bag ...
